@@ -413,6 +413,49 @@ func (r *real) Exec(line string) (out string) {
 			return "ok idx=" + strconv.FormatUint(uint64(resp.Index), 10) + " results="
 		}
 		return "bad-op"
+	case "wait.real.depart":
+		// a request that gave up while the store's dispatcher still held it in a snapshot of the listeners: an
+		// all-transactions watcher whose consumer is not reading yet, a transaction with a one-transaction watcher
+		// (what a waiting Set handler is to the store), three status writes pile up behind the slow watcher, the
+		// handler's context is cancelled, the slow consumer starts reading.  Whatever request comes next must still
+		// be answered when its transaction finishes: a departed handler never blocks the dispatcher.
+		if r.d == nil {
+			if err := r.setup(); err != nil {
+				return "setup-error " + err.Error()
+			}
+		}
+		r.d.wg.Wait()
+		bg := context.Background()
+		slow := make(chan configapi.TransactionEvent)
+		if err := r.inner.Watch(bg, slow); err != nil {
+			return "err watch"
+		}
+		tx := &configapi.Transaction{ID: "departed", Details: &configapi.Transaction_Change{Change: &configapi.ChangeTransaction{}}}
+		if err := r.inner.Create(bg, tx); err != nil {
+			return "err create"
+		}
+		wctx, wcancel := context.WithCancel(bg)
+		own := make(chan configapi.TransactionEvent)
+		if err := r.inner.Watch(wctx, own, txstore.WithTransactionID(tx.ID)); err != nil {
+			wcancel()
+			return "err watch"
+		}
+		go func() {
+			for range own {
+			}
+		}()
+		for _, st := range []configapi.TransactionStatus_State{configapi.TransactionStatus_VALIDATED, configapi.TransactionStatus_COMMITTED, configapi.TransactionStatus_APPLIED} {
+			r.d.apply(tx.ID, stat{state: st})
+		}
+		time.Sleep(40 * time.Millisecond)
+		wcancel()
+		time.Sleep(40 * time.Millisecond)
+		go func() {
+			for range slow {
+			}
+		}()
+		time.Sleep(60 * time.Millisecond)
+		return "ok"
 	case "wait.real.stored":
 		// what is stored under the identifier the last successful answer carried
 		if r.d == nil || r.lastID == "" {
@@ -632,6 +675,14 @@ func enumerate(tier string) []fw.Case {
 					}
 				}
 			}
+		}
+	}
+	// a departed handler first (wait.real.depart), then a synchronous and an asynchronous Set whose transactions
+	// run to the end: they must be answered (the departed transaction took log index 1)
+	for _, sync := range []bool{true, false} {
+		for _, p := range [][]string{{"V", "C", "A"}, {"V", "C", "F7"}} {
+			out = append(out, fw.Case{Script: []string{"wait.real.depart", runLine("set", sync, 0, p, change, 2), "wait.real.stored"},
+				Tags: []string{"enum-departed-handler", "h:set"}, Nontrivial: true})
 		}
 	}
 	return out
